@@ -158,6 +158,21 @@ def run_table(case):
     n, bad = _diff_tables(obj, ff_ref.builtin(ff), ff)
     res = {"evals": n, "violations": [], "events": {f"table:{ff}": n},
            "nontrivial": [f"{ff}:{r}" for r in ff_ref.builtin(ff)]}
+    # the residue states the topology files define (pinned list, see
+    # refs/canonical_names.txt): a state that disappears from the definition
+    # map leaves every residue in that state without parameters, and the
+    # reference table - resolved over the same files - would lose it too
+    pinned = (engine.VERIF / "mc/refs/canonical_names.txt").read_text().split()
+    for name in pinned:
+        if name not in _DEF.map:
+            res["violations"].append({
+                "sig": f"C01/definition/state-missing/{name}",
+                "detail": {"missing": name, "ff": ff}})
+        elif ff_ref.builtin(ff).get(name) and name not in obj.map:
+            res["violations"].append({
+                "sig": f"C01/table/{ff}/{name}/state-without-parameters",
+                "detail": {"missing": name}})
+    res["events"][f"definition-states:{len(_DEF.map)}"] = 1
     for r, a, got, exp in bad[:20]:
         res["violations"].append({
             "sig": f"C01/table/{ff}/{r}/{a}",
